@@ -15,7 +15,7 @@ EXPLANATION = (
     "FF->Err, TT->Err, TF->Ok(success), FT->Ok(failure). C18.3: with an expected function, Ok is reachable only when the parsed function "
     "equals it (valuation over expected.is_some, equal). C18.4: each parser's subject goes through try_into_expected_tagged_value with the "
     "writer's tag. C18.5: early failure: the writer's 'Unknown' known value is the very constant the reader compares with; any other known "
-    "value is an Err. Function/Parameter: Known <-> unsigned, Named <-> text under the same tag. C18.6: names that may be stored as a static or an owned string (the parser always produces the owned form) compare and hash by their text, never by storage variant. C18.9: a field written conditionally (add_assertion_if) is written iff !is_empty(that very field), the complement of the reader's empty default. C18.10: the well-known Function / Parameter / KnownValue constants have pairwise distinct codes and names. C18.11: Function / Parameter equality by variant pair (mixed -> false, Known by code, Named by name). Does not decide value-level round-trip of "
+    "value is an Err. Function/Parameter: Known <-> unsigned, Named <-> text under the same tag, and the reader refuses nothing of a kind the writer produces. C18.6: names that may be stored as a static or an owned string (the parser always produces the owned form) compare and hash by their text, never by storage variant. C18.9: a field written conditionally (add_assertion_if) is written iff !is_empty(that very field), the complement of the reader's empty default. C18.10: the well-known Function / Parameter / KnownValue constants have pairwise distinct codes and names. C18.11: Function / Parameter equality by variant pair (mixed -> false, Known by code, Named by name). Does not decide value-level round-trip of "
     "Date, ARID or arbitrary parameter values (dcbor / bc-components)."
     " C18.3 also: the function compared with the expected one is function(the parsed expression, unmodified).")
 TRUSTED = ['CBOR::try_into_expected_tagged_value fails unless the tag matches', 'ARID/Date/String CBOR conversions round-trip (dependencies)']
